@@ -229,6 +229,9 @@ def layout(ctx, world):
         else:
             want0, wantk = ("slice", (0, 1, 0, 0), None), ("index", (0, 0, 1, -1))
         ok = f0 == want0 and fk == wantk
+        if not ok and ("?" in str(f0) or "?" in str(fk)):
+            ctx.ob("A2.layout", name, None, e.loc, sample=f"index forms not linear in len(seq), len(elts), argnum: {f0} {fk}")
+            continue
         if ok:
             ctx.ob("A2.layout", name, True, e.loc, sample=f"layout [{lay}] argnum0={f0} argnumk={fk}")
         else:
@@ -258,6 +261,8 @@ def _lin(t, names):
             return (1, 0, 0, 0)
         if a.op == "rest" and a.start == 1:
             return (0, 1, 0, 0)
+        if a.op == "sym" and a.get("role") == "g":
+            return (1, 1, 0, 0)  # the cotangent has the structure of the result: len(seq) + len(elts)
         return "?"
     if t.op == "bin" and t.opname in ("Add", "Sub"):
         a, b = _lin(t.l, names), _lin(t.r, names)
